@@ -4351,14 +4351,20 @@ class Fparser2Reader():
             '''
             intr_nodes = walk(pnodes, Fortran2003.Intrinsic_Function_Reference)
             for intr in intr_nodes:
-                if (intr.children[0].string in
+                if (intr.children[0].string.upper() in
                         Fortran2003.Intrinsic_Name.array_reduction_names):
                     # These intrinsics are only a problem if they return an
                     # array rather than a scalar.
                     arg_specs = walk(intr.children[1],
                                      Fortran2003.Actual_Arg_Spec)
-                    if any(spec.children[0].string == 'dim'
+                    if any(spec.children[0].string.lower() == 'dim'
                            for spec in arg_specs):
+                        return True
+                    # A second positional argument may be DIM (it cannot
+                    # be told apart from MASK without type information).
+                    args = getattr(intr.children[1], "children", [])
+                    if (len(args) > 1 and not isinstance(
+                            args[1], Fortran2003.Actual_Arg_Spec)):
                         return True
             return False
 
